@@ -200,7 +200,9 @@ macro_rules! probe_type {
 
 probe_type!(ProbeMean, average::Mean);
 probe_type!(ProbeVariance, average::Variance);
+#[cfg(any(feature = "std", feature = "libm"))]
 probe_type!(ProbeSkewness, average::Skewness);
+#[cfg(any(feature = "std", feature = "libm"))]
 probe_type!(ProbeKurtosis, average::Kurtosis);
 probe_type!(ProbeMin, average::Min);
 probe_type!(ProbeMax, average::Max);
